@@ -53,6 +53,10 @@ type V struct {
 	// top-level maps only: further keys that were inserted (with value GoneVal) and deleted again before printing
 	Gone    []*V `json:"gone,omitempty"`
 	GoneVal *V   `json:"gone_val,omitempty"`
+	// top-level slices in script forms only: the slice is printed once holding Prev (same length), then overwritten
+	// element by element through Mut (0 a reslice of it, 1 copy, 2 a second variable holding it) and printed again
+	Prev []*V `json:"prev,omitempty"`
+	Mut  int  `json:"mut,omitempty"`
 }
 
 // T is a type.
@@ -151,7 +155,7 @@ func genScalar(rt *rapid.T, k string, hostOnly bool) *V {
 		}
 		v.FBits = math.Float64bits(f)
 	case "string":
-		v.S = rx.Pick(rt, "s", "", "a", "hello world", "é€", "x y", "\t", "quote\"s", "[1 2]", "map[a:1]", "nil", "0", "a\nb")
+		v.S = rx.Pick(rt, "s", "", "a", "hello world", "é€", "x y", "\t", "quote\"s", "[1 2]", "map[a:1]", "nil", "0", "a\nb", "50%", "%d", "100%% %s", "%v%", "%!(x)")
 	}
 	return v
 }
@@ -571,6 +575,15 @@ func genCase(rt *rapid.T) *Case {
 				v.Gone, v.GoneVal = nil, nil
 			}
 		}
+		if i == 0 && !g.hostOnly && v.K == "slice" && len(v.Items) > 0 && rx.Chance(rt, "again", 1, 3) {
+			for range v.Items {
+				v.Prev = append(v.Prev, g.genValue(rt, v.Elem, false))
+			}
+			v.Mut = rx.Uniform(rt, 3, "mut")
+			if (&V{K: "slice", Elem: v.Elem, Items: v.Prev}).depth(g.defs) > deepAllowed {
+				v.Prev = nil
+			}
+		}
 		c.Vals = append(c.Vals, v)
 	}
 	c.Defs = g.defs
@@ -579,6 +592,7 @@ func genCase(rt *rapid.T) *Case {
 
 func (c *Case) expected() (string, error) {
 	parts := make([]string, len(c.Vals))
+	first := ""
 	for i, v := range c.Vals {
 		s, err := expected(v)
 		if err != nil {
@@ -586,11 +600,18 @@ func (c *Case) expected() (string, error) {
 		}
 		parts[i] = s
 	}
-	out := strings.Join(parts, " ")
+	end := ""
 	if c.Form != "fmt.Print" && c.Form != "host_string" {
-		out += "\n"
+		end = "\n"
 	}
-	return out, nil
+	if len(c.Vals[0].Prev) > 0 {
+		s, err := expected(&V{K: "slice", Elem: c.Vals[0].Elem, Items: c.Vals[0].Prev})
+		if err != nil {
+			return "", err
+		}
+		first = strings.Join(append([]string{s}, parts[1:]...), " ") + end
+	}
+	return first + strings.Join(parts, " ") + end, nil
 }
 
 func (c *Case) script() string {
@@ -608,6 +629,8 @@ func (c *Case) script() string {
 		names = append(names, name)
 		if needsDecl(v) {
 			fmt.Fprintf(&sb, "%svar %s %s\n", ind, name, typeOf(v).goName())
+		} else if len(v.Prev) > 0 {
+			fmt.Fprintf(&sb, "%s%s := %s\n", ind, name, literal(&V{K: "slice", Elem: v.Elem, Items: v.Prev}, true))
 		} else if typeOf(v).container() {
 			fmt.Fprintf(&sb, "%s%s := %s\n", ind, name, literal(v, true))
 		} else {
@@ -623,16 +646,35 @@ func (c *Case) script() string {
 		}
 	}
 	args := strings.Join(names, ", ")
-	switch c.Form {
-	case "println":
-		fmt.Fprintf(&sb, "%sprintln(%s)\n", ind, args)
-	case "fmt.Println":
-		fmt.Fprintf(&sb, "%sfmt.Println(%s)\n", ind, args)
-	case "fmt.Print":
-		fmt.Fprintf(&sb, "%sfmt.Print(%s)\n", ind, args)
-	case "fmt.Sprint":
-		fmt.Fprintf(&sb, "%ss := fmt.Sprint(%s)\n%sfmt.Println(s)\n", ind, args, ind)
+	emit := func(k int) {
+		switch c.Form {
+		case "println":
+			fmt.Fprintf(&sb, "%sprintln(%s)\n", ind, args)
+		case "fmt.Println":
+			fmt.Fprintf(&sb, "%sfmt.Println(%s)\n", ind, args)
+		case "fmt.Print":
+			fmt.Fprintf(&sb, "%sfmt.Print(%s)\n", ind, args)
+		case "fmt.Sprint":
+			fmt.Fprintf(&sb, "%ss%d := fmt.Sprint(%s)\n%sfmt.Println(s%d)\n", ind, k, args, ind, k)
+		}
 	}
+	if v := c.Vals[0]; len(v.Prev) > 0 {
+		emit(0)
+		switch v.Mut {
+		case 0:
+			fmt.Fprintf(&sb, "%sw0 := v0[0:]\n", ind)
+		case 2:
+			fmt.Fprintf(&sb, "%sw0 := v0\n", ind)
+		}
+		if v.Mut == 1 {
+			fmt.Fprintf(&sb, "%scopy(v0, %s)\n", ind, literal(v, true))
+		} else {
+			for i, it := range v.Items {
+				fmt.Fprintf(&sb, "%sw0[%d] = %s\n", ind, i, literal(it, false))
+			}
+		}
+	}
+	emit(1)
 	if c.InFunc {
 		sb.WriteString("}\nrun()\n")
 	}
@@ -724,6 +766,9 @@ func TestValues(t *testing.T) {
 			}
 		}
 		r.Class(fmt.Sprintf("container_depth=%d", md))
+		if len(c.Vals[0].Prev) > 0 {
+			r.Class(fmt.Sprintf("printed_changed_printed_again_mut=%d", c.Vals[0].Mut))
+		}
 		if nontrivial(c) {
 			r.Nontrivial(ev.HashJSON(c))
 		}
